@@ -74,7 +74,10 @@ var (
 	e2eDNS        string
 	e2eDNSMu      sync.Mutex
 	e2eDNSQueries = map[string]int{}
+	e2eDNSFirst   = map[string]time.Time{} // when a name was first asked for
 )
+
+const e2eDNSLife = 300 * time.Millisecond // names with a label "expire" stop resolving this long after they were first asked for
 
 func startE2EDNS(t *testing.T) {
 	h := dns.HandlerFunc(func(w dns.ResponseWriter, r *dns.Msg) {
@@ -88,7 +91,17 @@ func startE2EDNS(t *testing.T) {
 			} else if q.Qtype == dns.TypeA {
 				e2eDNSMu.Lock()
 				e2eDNSQueries[name]++
+				first, seen := e2eDNSFirst[name]
+				if !seen {
+					first = time.Now()
+					e2eDNSFirst[name] = first
+				}
 				e2eDNSMu.Unlock()
+				if strings.Contains(name, ".expire.") && time.Since(first) > e2eDNSLife {
+					m.SetRcode(r, dns.RcodeNameError) // the name is gone: 300 ms after it was first asked for
+					_ = w.WriteMsg(m)
+					return
+				}
 				m.Answer = append(m.Answer, &dns.A{Hdr: dns.RR_Header{Name: q.Name, Rrtype: dns.TypeA, Class: dns.ClassINET, Ttl: 60}, A: net.IPv4(127, 0, 0, 1).To4()})
 			} // any other type: the name exists, no such record
 		}
@@ -118,7 +131,12 @@ var clientCertPEM = sync.OnceValues(func() (string, string) {
 	return string(pem.EncodeToMemory(&pem.Block{Type: "CERTIFICATE", Bytes: der})), string(pem.EncodeToMemory(&pem.Block{Type: "EC PRIVATE KEY", Bytes: kder}))
 })
 
-func (c cmdCase) dnsName(dir string) string { return filepath.Base(dir) + ".dest.test" }
+func (c cmdCase) dnsName(dir string) string {
+	if c.DNSDest == "expire" {
+		return filepath.Base(dir) + ".expire.dest.test"
+	}
+	return filepath.Base(dir) + ".dest.test"
+}
 
 func (c cmdCase) valid() bool {
 	if c.Tickets && c.Server != "tls" && c.Server != "tls2" && c.Server != "mtls" {
@@ -249,6 +267,8 @@ func (c cmdCase) op(dir string) map[string]any {
 		"-max-workers", strconv.Itoa(c.MaxW), "-workers", strconv.Itoa(c.Workers), "-max-body", strconv.Itoa(c.MaxBody)}
 	if c.Lazy {
 		args = append(args, "-lazy", "-duration", "2s") // the end of the list stops the attack long before; the bound only keeps a run finite
+	} else if c.DNSDest == "expire" {
+		args = append(args, "-duration", "2s")
 	} else if c.Stall {
 		args = append(args, "-duration", "1200ms", "-timeout", "100ms")
 	} else {
@@ -284,6 +304,9 @@ func (c cmdCase) op(dir string) map[string]any {
 	if c.DNSDest != "none" {
 		// the mapped destination is a name, to be looked up through -resolvers under the -dns-ttl policy
 		args = append(args, "-connect-to", "E2E.invalid:{{PORT}}:"+c.dnsName(dir)+":{{PORT}}", "-resolvers", e2eDNS)
+		if c.DNSDest == "expire" {
+			args = append(args, "-dns-ttl", "100ms")
+		}
 		if c.DNSDest == "off" {
 			args = append(args, "-dns-ttl", "-1")
 		}
@@ -460,6 +483,11 @@ func TestDrv_E2E(t *testing.T) {
 		o := KV{"err": e, "decode_err": "", "prom_count": -1}
 		// the output file, decoded with the library's own gob decoder
 		rs := []KV{}
+		type stamp struct {
+			at time.Time
+			ok bool
+		}
+		var stamps []stamp
 		outName := "out.bin"
 		if c.Stall {
 			outName = "out.real"
@@ -475,6 +503,7 @@ func TestDrv_E2E(t *testing.T) {
 					}
 					break
 				}
+				stamps = append(stamps, stamp{x.Timestamp, x.Code == 200})
 				kind, path := "hit", ""
 				if x.Method == "" && x.URL == "" {
 					kind = "end"
@@ -570,6 +599,23 @@ func TestDrv_E2E(t *testing.T) {
 		}
 		e2eDNSMu.Lock()
 		o["dnsq"] = e2eDNSQueries[c.dnsName(fmt.Sprintf("e2e%03d", k))+"."]
+		// (expire) successes before the name was gone, and results - successes among them - from 700 ms after that on
+		earlyOK, lateOK, lateN := 0, 0, 0
+		if first, ok := e2eDNSFirst[c.dnsName(fmt.Sprintf("e2e%03d", k))+"."]; ok && c.DNSDest == "expire" {
+			gone := first.Add(e2eDNSLife)
+			for _, ts := range stamps {
+				switch {
+				case ts.at.Before(gone) && ts.ok:
+					earlyOK++
+				case ts.at.After(gone.Add(700 * time.Millisecond)):
+					lateN++
+					if ts.ok {
+						lateOK++
+					}
+				}
+			}
+		}
+		o["early_ok"], o["late_ok"], o["late_n"] = earlyOK, lateOK, lateN
 		e2eDNSMu.Unlock()
 		tr.Emit("Run", KV{"c": c, "o": o})
 		requests += len(qs)
